@@ -67,6 +67,21 @@ Proof.
 Qed.
 Print Assumptions c07_in_list_order.
 
+(* --- composed: EVERY herd of the month's list, wherever it stands, is offered non-negative supplies and meets every
+       single-herd clause at once (feed_spec, Proofs/Herd.v: conservation of grass and feed, 0 <= balance <= requirement,
+       delivered = digestible part of what was consumed, grass only to ruminants, 0 <= fed <= herd, fed = herd when the
+       requirement is met, the rounded proportional count otherwise, and short herds exhaust the resource) - the
+       single-herd theorems above are stated under 0 <= g, 0 <= f; this discharges that premise inside the chain *)
+Theorem c07_every_herd_in_list : forall l g f, Forall feeder_ok l -> 0 <= g -> 0 <= f ->
+  forall l1 s l2, l = l1 ++ s :: l2 ->
+  let '(_, g1, f1) := feed_chain l1 g f in
+  0 <= g1 /\ 0 <= f1 /\ feed_spec s g1 f1 (feed_the_species s g1 f1).
+Proof.
+  intros l g f H Hg Hf l1 s l2 E.
+  exact (chain_all_nth _ l g f (chain_each l g f H Hg Hf) l1 s l2 E).
+Qed.
+Print Assumptions c07_every_herd_in_list.
+
 (* --- strict priority: if a herd is left short of its requirement, no later herd receives any feed, and if that
        herd is a ruminant no later herd receives any grass *)
 Theorem c07_priority : forall l1 s l2 g f, Forall feeder_ok (l1 ++ s :: l2) -> 0 <= g -> 0 <= f ->
